@@ -154,7 +154,7 @@ def gen_name_element(rng):
     elif k < 0.55:
         nm = rng.choice(['CA', 'CB', 'CG', 'OG', 'NZ', 'HA', 'SD']); el = nm[0]
     elif k < 0.65:
-        nm = rng.choice(['FE', 'ZN', 'CA', 'MG']); el = nm
+        nm = rng.choice(['FE', 'ZN', 'CA', 'MG', 'Fe', 'Zn', 'Cl', 'na']); el = nm      # (element symbols are also written in title / lower case)
     elif k < 0.8:
         nm = rng.choice(['CD1', 'OE1', 'NH2', 'HB2', 'OXT']); el = nm[0]
     elif k < 0.9:
